@@ -554,7 +554,7 @@ func c02Resume(c *Ctx) {
 	for _, b := range dl.Blocks {
 		for _, in := range b.Instrs {
 			ph, ok := in.(*ssa.Phi)
-			if !ok || ph.Comment != "rangeRequestOk" {
+			if !ok || (ph.Comment != "rangeRequestOk" && !(strings.HasPrefix(ph.Comment, "_inl") && short(ph.Type().String()) == "bool")) {
 				continue
 			}
 			for i, e := range ph.Edges {
@@ -562,38 +562,8 @@ func c02Resume(c *Ctx) {
 					nAccept++
 					pred := b.Preds[i]
 					// pred reachable only through (X == fromByte) true edge, X from ParseInt
-					passEq := PassEdges(dl, func(cond ssa.Value) (bool, bool) {
-						op, x, y, ok := BinCmp(cond)
-						if !ok || (op != token.EQL && op != token.NEQ) {
-							return false, false
-						}
-						isFrom := func(v ssa.Value) bool { return derivesOnlyFrom(p, v, pFrom) }
-						isParsed := func(v ssa.Value) bool {
-							call, idx, ok := CallResult(v)
-							return ok && idx == 0 && CalleeName(call.Common()) == "strconv.ParseInt"
-						}
-						if isFrom(x) && isParsed(y) || isFrom(y) && isParsed(x) {
-							return op == token.EQL, true
-						}
-						return false, false
-					})
-					pass206 := PassEdges(dl, func(cond ssa.Value) (bool, bool) {
-						op, x, y, ok := BinCmp(cond)
-						if !ok {
-							return false, false
-						}
-						if k, isK := ConstInt(y); isK && k == 206 {
-							if _, f, _, isF := FieldOf(x); isF && f == "StatusCode" {
-								if op == token.EQL {
-									return true, true
-								}
-								if op == token.NEQ {
-									return false, true
-								}
-							}
-						}
-						return false, false
-					})
+					passEq := PassEdges(dl, rangeStartEq(p, pFrom))
+					pass206 := PassEdges(dl, status206)
 					sink := lastInstr(pred)
 					ok1, path1 := Guarded(dl.Blocks[0], sink, passEq, noret)
 					ok2, path2 := Guarded(dl.Blocks[0], sink, pass206, noret)
@@ -603,6 +573,44 @@ func c02Resume(c *Ctx) {
 				}
 			}
 			// every use of the flag: the true branch keeps state, the false branch truncates (checked by truncate rules)
+		}
+	}
+	if nAccept == 0 {
+		// the verdict may travel through a local cell (the result variable of a helper expanded in place): a
+		// bool cell that is branched on; every store of `true` into it is an accept site
+		for _, b := range dl.Blocks {
+			for _, in := range b.Instrs {
+				st, ok := in.(*ssa.Store)
+				if !ok {
+					continue
+				}
+				al, ok := st.Addr.(*ssa.Alloc)
+				if !ok {
+					continue
+				}
+				if bv, isC := ConstBool(st.Val); !isC || !bv {
+					continue
+				}
+				branched := false
+				for _, r := range Referrers(al) {
+					if u, ok := r.(*ssa.UnOp); ok {
+						for _, rr := range Referrers(u) {
+							if _, isIf := rr.(*ssa.If); isIf {
+								branched = true
+							}
+						}
+					}
+				}
+				if !branched {
+					continue
+				}
+				nAccept++
+				ok1, path1 := Guarded(dl.Blocks[0], st, PassEdges(dl, rangeStartEq(p, pFrom)), noret)
+				ok2, path2 := Guarded(dl.Blocks[0], st, PassEdges(dl, status206), noret)
+				c.Check(ok1, "R3", "resume-accepted:content-range-start==offset", p.InstrPos(st), "resume accepted only when the Content-Range start equals the resume offset",
+					"a ranged response can be accepted although its Content-Range start was not compared equal to the resume offset: "+path1)
+				c.Check(ok2, "R3", "resume-accepted:status-206", p.InstrPos(st), "resume accepted only for status 206", "resume accepted without status 206: "+path2)
+			}
 		}
 	}
 	c.AtLeast("R3", "resume-accept assignments", nAccept, 1)
@@ -917,4 +925,42 @@ func nameOfFileAtAllCallers(p *Prog, fn *ssa.Function, name, file ssa.Value) boo
 		}
 	}
 	return n > 0
+}
+
+// rangeStartEq matches `X == fromByte` with X parsed by strconv.ParseInt (the Content-Range start).
+func rangeStartEq(p *Prog, pFrom *ssa.Parameter) CondMatch {
+	return func(cond ssa.Value) (bool, bool) {
+		op, x, y, ok := BinCmp(cond)
+		if !ok || (op != token.EQL && op != token.NEQ) {
+			return false, false
+		}
+		isFrom := func(v ssa.Value) bool { return derivesOnlyFrom(p, v, pFrom) }
+		isParsed := func(v ssa.Value) bool {
+			call, idx, ok := CallResult(v)
+			return ok && idx == 0 && CalleeName(call.Common()) == "strconv.ParseInt"
+		}
+		if isFrom(x) && isParsed(y) || isFrom(y) && isParsed(x) {
+			return op == token.EQL, true
+		}
+		return false, false
+	}
+}
+
+// status206 matches `res.StatusCode == 206`.
+func status206(cond ssa.Value) (bool, bool) {
+	op, x, y, ok := BinCmp(cond)
+	if !ok {
+		return false, false
+	}
+	if k, isK := ConstInt(y); isK && k == 206 {
+		if _, f, _, isF := FieldOf(x); isF && f == "StatusCode" {
+			if op == token.EQL {
+				return true, true
+			}
+			if op == token.NEQ {
+				return false, true
+			}
+		}
+	}
+	return false, false
 }
